@@ -43,6 +43,11 @@ CLAIMS = {
             "an independent table) for every value of the symbolic non-castable leaves, thresholds, list index and key, per path shape "
             "(keys of every type, list indices, fan-out, nesting, empty/missing path); caller's document unchanged; verdicts judged on "
             "the cast values", "3 C15"),
+    "C08": ("one inductive step per operation (filter, get, Rule.test, Schema.validate; with/without casts; raw and Data-wrapped "
+            "documents): on every symbolic path the identity graph of all valida objects reachable from the arguments and the "
+            "type-exact structure and container identities of the caller's document are unchanged; plus sequences of 2-4 calls on "
+            "shared objects equal to the same calls on fresh objects. Arbitrary sequences/interleavings follow by induction "
+            "(only reads are shared); threads are not executed", "3 C08"),
     "C14": ("equality laws (reflexive/symmetric/transitive, rebuilt and commuted copies equal) and 'equal implies same "
             "behaviour' decided for every value of the differing atom (key, index, argument, label) and of the probe "
             "document's leaves, per term kind", "3 C14"),
